@@ -43,6 +43,7 @@ def run(ck):
     ck.rule("C10.R2c", "every valueset! field-form arm is exercised by a fixture function", floor=20)
     ck.rule("C10.R4", "impl Value for T calls exactly the visitor method for its type", floor=30)
     ck.rule("C10.R5", "ValueSet::record visits a pair iff same callsite and Some; Span::record ignores undeclared", floor=3)
+    ck.rule("C10.R8", "`a collector has been installed` is sticky (as C18.R5): disabled callsites evaluate nothing also with the log feature", floor=3)
     ck.rule("C10.R7", "collector wrappers forward register_callsite/enabled and the records themselves (as C09.R1/R2)", floor=20)
     ck.rule("C10.R6", "recorded values reach the collector: the dispatcher's re-entrancy flag is given back on every exit (as C02.R6)", floor=3)
     fx = "fx" if ck.tier == "quick" else "fx:%d:300" % ck.seed
@@ -74,6 +75,10 @@ def run(ck):
     from rules import C02
     C02.r6(ck, F, rid="C10.R6")
     # ... and only if every collector wrapper on the way passes the questions and the records on (C09.R1/R2, instantiated)
+    # with the `log` feature a disabled callsite builds its value set for the log record unless a collector was ever
+    # installed: that flag must be set by both install paths and never cleared (C18.R5 / C02.R5)
+    from rules import C18
+    C18.r5(ck, F, rid="C10.R8")
     from rules import C09
     C09.wrapper_rules(ck, F, rids={"R0": "C10.R7", "R1": "C10.R7", "R2": "C10.R7", "R3": "C10.R7"}, traits=["tracing_core::collect::Collect"],
                       only={"register_callsite", "enabled", "event_enabled", "event", "new_span", "record"})
